@@ -53,6 +53,7 @@ func NewStore(db *sql.DB) *Store {
 
 func (s *Store) Set(key string, sum []byte) error {
 	vhook.Write("ref", "set", []byte(key))
+	vhook.Event("ref.val", "key", key, "val", sum)
 	_, err := s.db.Exec(`INSERT INTO refs (name, sum) VALUES (?, ?) ON CONFLICT (name) DO UPDATE SET sum=excluded.sum`, key, sum)
 	return err
 }
@@ -68,6 +69,7 @@ func (s *Store) Get(key string) ([]byte, error) {
 
 func (s *Store) SetWithLog(key string, sum []byte, rl *ref.Reflog) error {
 	vhook.Write("ref", "setlog", []byte(key))
+	vhook.Event("ref.val", "key", key, "val", sum)
 	return sqlutil.RunInTx(s.db, func(tx *sql.Tx) error {
 		row := tx.QueryRow(`SELECT sum FROM refs WHERE name = ?`, key)
 		oldSum := make([]byte, 16)
@@ -179,6 +181,7 @@ func (s *Store) FilterKey(prefixes []string, notPrefixes []string) (keys []strin
 
 func (s *Store) Rename(oldKey, newKey string) (err error) {
 	vhook.Write("ref", "rename", []byte(oldKey))
+	vhook.Event("ref.to", "key", oldKey, "to", newKey)
 	return sqlutil.RunInTx(s.db, func(tx *sql.Tx) error {
 		row := tx.QueryRow(`SELECT sum FROM refs WHERE name = ?`, oldKey)
 		sum := make([]byte, 16)
@@ -201,6 +204,7 @@ func (s *Store) Rename(oldKey, newKey string) (err error) {
 
 func (s *Store) Copy(srcKey, dstKey string) (err error) {
 	vhook.Write("ref", "copy", []byte(dstKey))
+	vhook.Event("ref.to", "key", srcKey, "to", dstKey)
 	return sqlutil.RunInTx(s.db, func(tx *sql.Tx) error {
 		if _, err := tx.Exec(
 			`INSERT INTO refs (name, sum) VALUES (?, (SELECT sum FROM refs WHERE name = ?))`,
